@@ -585,7 +585,9 @@ class RaggedArray(IndexableArray, np.lib.mixins.NDArrayOperatorsMixin):
         self.ravel()
         ends = self._shape.ends
         starts = self._shape.starts
-        max_chars = np.max(ends-starts)
+        max_chars = np.max(ends-starts, initial=0)
+        if max_chars == 0:
+            return np.empty((starts.size, 0), dtype=self.dtype)
         view_starts = starts if side == "right" else ends-max_chars
 
         indices = np.minimum(view_starts[:, None]+np.arange(max_chars), ends[-1]-1)
